@@ -476,8 +476,19 @@ def _run(plan, ctx, oracle, seqmod, sfp, spmod, SequenceParameters, fsbox):
         if "shuffle" in op:
             fz = set(j for j in op["shuffle"].get("fz", []) if j < len(seqs[i]))
             child = o.get_shuffled_sequence(fz)
+            import localcider.backend.sequence as _seqmod
+
+            def _backend(w):
+                b = getattr(w, "SeqObj", None)
+                if b is None:
+                    try:
+                        found = [v for v in vars(w).values() if isinstance(v, _seqmod.Sequence)]
+                    except TypeError:
+                        found = []
+                    b = found[0] if len(found) == 1 else None
+                return b
             for other in objs:
-                sa, sb = getattr(child, "SeqObj", None), getattr(other, "SeqObj", None)
+                sa, sb = _backend(child), _backend(other)
                 if child is other or (sa is not None and sa is sb):
                     # two API objects over one backend: what a setter does to one shows on the other.  That is a
                     # matter for C16/C20 (which report it); a history of read-only queries cannot be judged on it
